@@ -375,6 +375,8 @@ class Model:
                   ("if", ("op", "ge", ty, ("var", e["?i"]), ("lit", "1", ty)), COMMA, ("unit",)))
         PUSH1 = (("let", "?a", GA), ("call", "Vec::push", ("var", e["?args"]), ("var", "?a")))
         PUSH2 = (("call", "Vec::push", ("var", e["?args"]), GA),)
+        if M(("seq", ("let", "?a", GA), after, ("call", "Vec::push", ("var", e["?args"]), ("var", "?a"))), body) is not None:
+            return True, "comma after every argument but the last (pushed after the comma)"
         for push in (PUSH1, PUSH2):
             if M(("seq",) + push + (after,), body) is not None:
                 return True, "comma after every argument but the last"
